@@ -287,35 +287,14 @@ Proof. exact served_unless_runtime_reason. Qed.
     environments into C04's encoding; [c04_accepts E l t a] runs C04's transcription of
     validateCoercion ([ValidatorModel.coercion repaired id_order]) on the translation;
     [tr_request_schema] / [tr_request_doc] build C04's schema and document for a whole request and
-    [c04_document_accepts] runs C04's ValidateDocument model on them.
+    [c04_document_accepts] runs C04's ValidateDocument model on them.  The [_r] forms use the refined
+    translation (DateTime / LongInt through C04's SRefined scalars).
 
-    FULL STATEMENT (proved in round 6, see C05_C04_accepts_implies_static_ok below):
-      forall E dt site dname argdefs defs args, bridgeable E = true ->
-        c04_document_accepts E site dname argdefs defs args = true ->
-        static_ok all_fixed E dt site argdefs defs args = true
-    ([bridgeable]: no DateTime / LongInt, whose value-dependent coercers C04's kind-level custom
-    scalars cannot express).
-
-    PROVED:
-    - validateCoercion: [C05_C04_coercion_bridge_partial] - C04's transcription equals C05's on every
-      literal (objects included), every type, every bridgeable environment; Int and ID cross as
-      decimal text that C04 reads back ([int_lit_dec]).  One leaf hypothesis is left:
-      [float_leaves_agree] (C04's ParseFloat range test [Literals.float_lit_ok] on the text m"e"k
-      = C05's rounding [f64_of_decimal m k] succeeds), not needed when the environment has no Float.
-    - the node level of the document ([C05_C04_accepts_implies_static_ok_partial]): C04's
-      validateArguments check on the node and validateCoercion on every argument value and variable
-      default, silent, give the five validateArguments / validateValues conjuncts of [static_ok]
-      ([static_ok_arguments_values], [C05_static_ok_split]).
-    - validateVariables' two pure functions are the same on both sides
-      ([C05_C04_types_compatible], [C05_C04_variable_usage]).
-    NOT PROVED, the exact gap: [float_leaves_agree] only (the document level, (b) in earlier
-    rounds, is proved in round 6: C05_C04_accepts_implies_static_ok below).  The check still
-    evaluates [bridge_agrees] on every literal and [c04_document_accepts = static_ok] on every
-    bridgeable request (both directions; the theorem is the forward one). *)
-Theorem C05_C04_coercion_bridge_partial : forall E dt, bridgeable E = true ->
-  (no_float E = true \/ float_leaves_agree dt) ->
-  forall l t a, c04_accepts E l t a = validate_coercion E dt l t a.
-Proof. exact bridge_bridgeable. Qed.
+    The complete statements are further down: [C05_C04_coercion_bridge_r] and
+    [C05_C04_accepts_implies_static_ok_r] (every environment, no hypothesis about the models), with
+    their kind-level forms [C05_C04_coercion_bridge] / [C05_C04_accepts_implies_static_ok] (kept
+    because C14 builds on the kind-level translation).  The theorems of this block are the
+    node-level pieces they are assembled from; each is a complete statement of its own. *)
 
 (** the same under the general leaf hypothesis, for any environment *)
 Theorem C05_C04_coercion_bridge_leaves : forall E dt, leaves_agree E dt ->
@@ -326,7 +305,10 @@ Theorem C05_C04_coercion_bridge_leaves : forall E dt, leaves_agree E dt ->
   end = validate_coercion E dt l t a.
 Proof. exact bridge_all. Qed.
 
-Theorem C05_C04_accepts_implies_static_ok_partial : forall E dt argdefs defs args p,
+(** the node level: C04's validateArguments check on the node and validateCoercion on every argument
+    value and variable default, silent, give the five validateArguments / validateValues conjuncts
+    of [static_ok] ([static_ok_arguments_values], [C05_static_ok_split]) *)
+Theorem C05_C04_node_checks_imply_arguments_values : forall E dt argdefs defs args p,
   bridgeable E = true -> (no_float E = true \/ float_leaves_agree dt) ->
   fst (ValidatorModel.args_node ValidatorModel.repaired ValidatorModel.id_order [] (tr_args 0 args) (tr_argdefs argdefs) p) = [] ->
   (forall a d, In a args -> aget (fst a) argdefs = Some d -> c04_accepts E (snd a) (in_type d) true = true) ->
@@ -526,9 +508,8 @@ Print Assumptions C05_argument_values_complete.
 Print Assumptions C05_variable_values_complete.
 Print Assumptions C05_absent_item_variable_is_error.
 Print Assumptions C05_served_unless_runtime_reason.
-Print Assumptions C05_C04_coercion_bridge_partial.
 Print Assumptions C05_C04_coercion_bridge_leaves.
-Print Assumptions C05_C04_accepts_implies_static_ok_partial.
+Print Assumptions C05_C04_node_checks_imply_arguments_values.
 Print Assumptions C05_static_ok_split.
 Print Assumptions C05_C04_types_compatible.
 Print Assumptions C05_C04_variable_usage.
